@@ -3,6 +3,7 @@ package querylog
 import (
 	"context"
 	"log/slog"
+	"math"
 	"time"
 )
 
@@ -36,6 +37,23 @@ func newSearchParams() *searchParams {
 		// by default, we scan up to 50k entries at once
 		maxFileScanEntries: 50000,
 	}
+}
+
+// valid returns true if the paging parameters describe a non-empty page, that
+// is if limit is positive and offset is non-negative.
+func (s *searchParams) valid() (ok bool) {
+	return s.limit > 0 && s.offset >= 0
+}
+
+// totalLimit returns the number of the newest entries that must be collected
+// to serve the page defined by offset and limit.  The paging parameters must be
+// valid.  The sum is capped to avoid integer overflows.
+func (s *searchParams) totalLimit() (n int) {
+	if s.limit > math.MaxInt-s.offset {
+		return math.MaxInt
+	}
+
+	return s.offset + s.limit
 }
 
 // quickMatchClientFunc is a simplified client finder for quick matches.
